@@ -93,6 +93,10 @@ def gen_op(rng, recipe, kind, allow=None, p_each=0.3):
         return {"op": kind, "target": rng.choice(tg), "train": rng.random() < 0.5}
     if kind == "prior_predict":
         return {"op": kind, "seed": rng.randrange(1 << 30), "t": rng.randint(1, 3)}
+    if kind == "freeze":
+        # requires_grad_ of one parameter (the usual way to hold a hyperparameter / the inducing points fixed)
+        # scope: one parameter / every parameter but one / the inducing points (SGPR, variational strategies)
+        return {"op": kind, "p": rng.randrange(1 << 10), "flag": rng.random() < 0.25, "scope": rng.choice(["one", "one", "all_but_one", "inducing"])}
     if kind == "train_call":
         return {"op": kind, "seed": rng.randrange(1 << 30), "t": rng.randint(1, 3)}
     if kind == "train_steps":
@@ -178,6 +182,17 @@ def apply(live, op, out, role=""):
     torch.manual_seed(op.get("seed", 20261002))
     if k == "sub_mode":
         getattr(M, op["target"]).train(op["train"])
+        return "ok", {}
+    if k == "freeze":
+        named = sorted(M.named_parameters(), key=lambda t: t[0])
+        pick = named[op["p"] % len(named)][0]
+        scope = op.get("scope", "one")
+        chosen = [n for n, _ in named if "inducing" in n] if scope == "inducing" else []
+        if not chosen:
+            chosen = [n for n, _ in named if n != pick] if scope == "all_but_one" else [pick]
+        for n, prm in named:
+            if n in chosen:
+                prm.requires_grad_(bool(op["flag"]))
         return "ok", {}
     if k == "predict":
         set_mode(live, False)  # model.eval(); likelihood.eval() - re-synchronises submodules switched on their own
